@@ -42,7 +42,7 @@ PLAN_N4 = {
 def spec(tier):
   small = 'smallq' if tier == 'quick' else 'small'
   s = [(1, eg.T21 + eg.U, 'allx', 'one', small),
-       (2, eg.T21 + eg.U, 'all', 'one', small)]
+       (2, eg.T21 + eg.U, 'all' if tier == 'quick' else 'allx', 'one', small)]
   if tier == 'quick':
     s.append((3, eg.TTOPO, 'first', 'one', 'n3q'))
   else:
